@@ -226,6 +226,10 @@ def comp_paths(md):
 def rand_options(rng, req, md):
     """random recording_options for a requester label"""
     names = [ob.out_path(md, o['id']) for o in md['outs']] + [ob.in_path(md, i['id']) for i in md['ins']]
+    if req.startswith('nl:') and req[3:]:
+        # the patterns of a solver recorder are relative to the solver's group
+        path = req[3:]
+        names = [n[len(path) + 1:] for n in names if n.startswith(path + '.')] or names
 
     def pats(n, allow_star=True):
         out = []
